@@ -146,7 +146,7 @@ class Machine:
         return fails
 
     def canon(self, s):
-        return frozenset((repr(a), repr(b)) for a, b in s.ref)
+        return tuple(sorted((repr(a), repr(b)) for a, b in s.ref))
 
 
 def _ctor_cases(K, V):
